@@ -11,19 +11,40 @@ LEVEL = "proof"
 HASHSEEDS = {"quick": [0, 1], "thorough": [0, 1, 2, 3]}
 BUDGET_S = {"quick": 120, "thorough": 1200}
 EXHAUSTIVE = {"quick": False, "thorough": False}
-RULE = ("random edit histories (length 5..40) over a store of live BayesianNetwork objects: constructor with "
-        "ebunch/latents, add_node(s) incl. duplicates, latent flags (bool, list, too-short list) and weight(s)= (right/wrong length, None, []), "
-        "add_edge(s) incl. self loops, cycle-closing edges, implicit nodes, non-atomic add_edges_from, each with and without weight(s)=, remove_node(s) incl. absent nodes, add_cpds with "
-        "right/wrong/unknown parents and normalised/unnormalised/uniform tables, remove_cpds, do (inplace or not, "
-        "single name or list, unknown nodes, partial CPDs), copy, get_random_cpds (int/dict/None, inplace or not); "
-        "every op targets a random live model (originals and copies alike).  After every step: error kind, and for "
-        "every live model nodes (ordered), per-node ordered successors/predecessors, latents, stored node/edge weights, CPD list (variable, "
-        "ordered parents, cardinalities, every table entry), nx.is_directed_acyclic_graph, and the sharing graph "
-        "(latents sets / CPD objects compared with `is` against the model's heap locations).  Also DBN histories "
-        "(add_node(s), add_edge(s) with slices 0..3), JunctionTree histories (add_node(s), add_edge(s) with and "
-        "without sepsets, self edges), DAG(ebunch) construction, and copy independence of MarkovNetwork / "
-        "ClusterGraph / JunctionTree on the real objects.  Non-trivial: >=1 edge or CPD existed at some step; "
-        "distinct = distinct canonical history")
+RULE = ("random edit histories (length 5..40) over a store of live BayesianNetwork objects: constructor (ebunch as "
+        "tuples / lists / tuple of tuples / networkx DiGraph / another live model; latents as set, list or omitted), "
+        "add_node(s) incl. duplicates, latent flags (bool, list, too-short list) and weight(s)= (right/wrong length, None, 0, []), "
+        "add_edge(s) incl. self loops, cycle-closing edges, implicit nodes, with and without weight(s)=, the inherited networkx "
+        "removals remove_edge / remove_edges_from / clear_edges, remove_node(s) incl. absent nodes, add_cpds with "
+        "right/wrong/unknown parents, normalised / unnormalised / uniform tables, tables of extreme magnitude (2^-900 .. 2^900, "
+        "one scale per table or per column) and tables built from a caller buffer that is overwritten afterwards, remove_cpds by "
+        "name and by foreign CPD object (exact copy, copy changed by 1e-10 / 1e-3: numpy.allclose semantics), do (inplace or not, "
+        "single name or list, unknown nodes, partial CPDs), copy, get_random_cpds (int/dict/None, inplace or not), empty "
+        "argument lists everywhere; one family with 8-9 parents (>= 256 columns) in 5% of the histories; node names str / int / "
+        "tuple / mixed / substrings of one another incl. '' and '1' next to 1; 15% of the histories on the torch backend.  "
+        "Every op targets a random live model.  A bulk call (add_edges_from, add_nodes_from, remove_nodes_from, add_cpds, "
+        "remove_cpds with several arguments) is a SEQUENCE of single operations: 'a rejected single operation leaves the model "
+        "unchanged' applies per element, so a rejected bulk call keeps exactly the elements before the rejected one (class PREFIX; "
+        "only DynamicBayesianNetwork.add_cpds and the weights-length checks validate everything first: class ATOMIC).  After every "
+        "step: error kind, and for every live model nodes (ordered), per-node ordered successors/predecessors, latents, stored "
+        "node/edge weights, CPD list (variable, ordered parents, cardinalities, every table entry relative to the exact value), "
+        "nx.is_directed_acyclic_graph, the sharing graph (latents sets / CPD objects with `is`, CPD arrays with shares_memory, "
+        "against the model's heap locations), purity of the argument containers, and the interleaved validation and queries "
+        "get_cpds() / get_cpds(node) / get_parents / get_children / get_leaves / get_roots / get_cardinality / check_model() "
+        "(oracle on the model's current state) / a VariableElimination query against exact enumeration.  Further streams: DBN "
+        "histories (add_node(s), add_edge(s) with slices 0..3 and weight arguments), JunctionTree histories, DAG(ebunch), copy "
+        "independence of MarkovNetwork / ClusterGraph / JunctionTree / DynamicBayesianNetwork (with a get_cpds session), explicit "
+        "state names that are not positions (kept through copy / remove_node / do; mismatching parent states rejected by "
+        "check_model), and rejected multi-argument calls for 23 mutators.  Checklist classes: A sessions = every history + "
+        "observe(); B purity = hold(); C results = get_cardinality / get_parents / copy / do results mutated, buffers, "
+        "shares_memory; D pandas: not applicable (no DataFrame reaches the anchored code); E names = styles above; F state names "
+        "= snames stream; G sizes = big family, cardinality 1, empty lists, weight 0 vs None (n_states=0 and all-zero columns are "
+        "outside the model: cardinalities >= 1, column sums > 0); H magnitudes = scaled tables, relative tolerance; I backends = "
+        "torch histories (tolerance 1e-5: pgmpy's torch constructor rounds through float32); J variants = inplace, n_states "
+        "forms, weight / latent forms, ebunch / latents forms (a generator ebunch is not offered: networkx swallows a rejected "
+        "edge and returns an empty graph); K rejected calls = multi stream + per-element model; L orders = ordered comparison "
+        "of nodes / adjacency / CPD list, hash seeds; M budget = tools/check.py.  Non-trivial: >=1 edge or CPD existed at some "
+        "step; distinct = distinct canonical history")
 TRUSTED_BASE = ["networkx DiGraph/Graph dict-of-dict storage (modelled as insertion-ordered node and edge lists)",
                 "numpy einsum / division (CPD marginalisation modelled on exact rationals, compared at 1e-9)",
                 "numpy default_rng(42).random: the harness hands the model the same draw stream"]
@@ -48,6 +69,19 @@ def rand_cols(rng, vcard, ncol, mode):
         else:
             col = common.rand_column(rng, vcard)
         cols.append(col)
+    if mode in ("scaled", "mixed-scale"):
+        # unnormalised tables of extreme magnitude (exact powers of two: the floats are exact): one factor for the
+        # whole table, or one per column (marginalisation then adds columns of very different size)
+        f = Fraction(2) ** rng.choice([-900, -300, -40, 60, 300, 900])
+        out = []
+        for col in cols:
+            if mode == "mixed-scale":
+                f = Fraction(2) ** rng.choice([-500, -200, -30, 0, 40, 200, 500])
+            col = [x * f for x in col]
+            if sum(col) == 0:
+                col[0] = f
+            out.append(col)
+        cols = out
     return cols
 
 
@@ -78,10 +112,16 @@ def gen_cpd(rng, sh, card, N, how=None):
     ncol = 1
     for k in ecard:
         ncol *= k
-    mode = rng.choice(["norm"] * 6 + ["unnorm", "uniform", "uniform"])
+    mode = rng.choice(["norm"] * 6 + ["unnorm", "uniform", "uniform", "scaled", "mixed-scale"])
     cols = rand_cols(rng, vcard, ncol, mode)
     return {"v": v, "vcard": vcard, "ev": pa, "ecard": ecard,
             "cols": [[[x.numerator, x.denominator] for x in col] for col in cols]}
+
+
+# (a generator is not offered: networkx swallows the exception of a rejected edge for iterators and returns an
+# EMPTY graph; pgmpy documents "an edge list or any NetworkX graph object")
+EBFORMS = ["tuples", "lists", "tuple-of-tuples", "digraph"]
+LATFORMS = ["set", "set", "list", "omit"]
 
 
 def gen_weights(rng, k):
@@ -91,15 +131,20 @@ def gen_weights(rng, k):
     if r < 0.5:
         return {}
     if r < 0.85:
-        return {"ws": [rng.choice([None, 1, 2, 3, 5, 8, 9]) if rng.random() < 0.25 else rng.randint(1, 9) for _ in range(k)]}
+        return {"ws": [rng.choice([None, 0, 0, 2, 3, 5, 8, 9]) if rng.random() < 0.3 else rng.randint(0, 9) for _ in range(k)]}
     if r < 0.9:
         return {"ws": []}
     return {"ws": [rng.randint(1, 9) for _ in range(rng.choice([n for n in (k - 1, k + 1, k + 2) if n > 0]))]}
 
 
 def wire_ws(o):
-    """weights on the wire: 0 = None; [] = weights argument absent or falsy"""
-    return [0 if w is None else w for w in (o.get("ws") or [])]
+    """weights on the wire: 0 = None, w + 1 = the number w (so that weight 0 and None stay apart);
+    [] = weights argument absent or falsy"""
+    return [0 if w is None else w + 1 for w in (o.get("ws") or [])]
+
+
+def wenc(w):
+    return 0 if w is None else int(w) + 1
 
 
 def would_cycle(edges, u, v):
@@ -116,8 +161,11 @@ def would_cycle(edges, u, v):
 
 
 def gen_bn_history(rng, length):
-    N = rng.randint(3, 6)
+    big = rng.random() < 0.05           # a family with >= 8 parents (table with >= 256 columns)
+    N = rng.randint(9, 10) if big else rng.randint(3, 6)
     card = [rng.choice([1, 2, 2, 2, 3, 3]) for _ in range(N)]
+    if big:
+        card = [rng.choice([1, 2, 2, 2]) for _ in range(N)]
     ops = []
     shadows = []  # light shadow state per live model, only used to aim the generator
 
@@ -137,8 +185,24 @@ def gen_bn_history(rng, length):
         nodes_, eb = common.rand_dag(rng, rng.randint(2, N))
         eb = [list(e) for e in eb]
     lat = rng.sample(range(N), rng.randint(0, 2)) if rng.random() < 0.3 else []
-    ops.append({"op": "new", "eb": eb, "lat": lat})
+    ops.append({"op": "new", "eb": eb, "lat": lat, "ebform": rng.choice(EBFORMS), "latform": rng.choice(LATFORMS)})
     new_shadow({x for e in eb for x in e}, {tuple(e) for e in eb})
+    if big:
+        # child c with 8 or 9 parents and a complete table, then edits around it
+        c = rng.randrange(N)
+        pa = [x for x in range(N) if x != c][: rng.choice([8, 9]) if N == 10 else 8]
+        ops.append({"op": "add_edges", "m": 0, "es": [[p, c] for p in pa if [p, c] not in eb and not would_cycle({tuple(e) for e in eb}, p, c)],
+                    "api": "many"})
+        real_pa = sorted({p for p in pa if not would_cycle({tuple(e) for e in eb}, p, c)} | {u for u, v in eb if v == c})
+        rng.shuffle(real_pa)
+        ncol = 1
+        for p in real_pa:
+            ncol *= card[p]
+        ops.append({"op": "add_cpds", "m": 0, "cs": [{"v": c, "vcard": card[c], "ev": real_pa, "ecard": [card[p] for p in real_pa],
+                    "cols": [[[x.numerator, x.denominator] for x in col] for col in rand_cols(rng, card[c], ncol, "norm")]}]})
+        shadows[0]["nodes"] |= set(pa) | {c}
+        shadows[0]["edges"] |= {(p, c) for p in real_pa}
+        shadows[0]["cpds"].add(c)
     while len(ops) < length:
         a = rng.randrange(len(shadows))
         sh = shadows[a]
@@ -172,20 +236,37 @@ def gen_bn_history(rng, length):
             eb = [[rng.randrange(N), rng.randrange(N)] for _ in range(rng.randint(0, 5))]
             sh2 = {"nodes": set(), "edges": set()}
             good = all(add_edge_sh(sh2, u, v) for u, v in eb)
-            ops.append({"op": "new", "eb": eb, "lat": rng.sample(range(N), rng.randint(0, 2))})
+            if rng.random() < 0.3 and len(shadows) < 6:
+                # BayesianNetwork(other_model): construction from a graph object
+                ops.append({"op": "new_from", "m": a, "lat": rng.sample(range(N), rng.randint(0, 2)), "latform": rng.choice(LATFORMS)})
+                new_shadow(sh["nodes"], sh["edges"])
+                continue
+            ops.append({"op": "new", "eb": eb, "lat": rng.sample(range(N), rng.randint(0, 2)),
+                        "ebform": rng.choice(EBFORMS), "latform": rng.choice(LATFORMS)})
             if good:
                 new_shadow(sh2["nodes"], sh2["edges"])
         elif r < 0.16:
-            k = rng.choice([1, 1, 1, 2, 3])
+            k = rng.choice([0, 1, 1, 1, 2, 3])
             xs = [[rng.randrange(N), rng.random() < 0.25] for _ in range(k)]
             o = {"op": "add_nodes", "m": a, "xs": xs, "api": "one" if k == 1 and rng.random() < 0.7 else "many"}
             o.update(gen_weights(rng, k))
-            if o["api"] == "many" and rng.random() < 0.08:
+            if o["api"] == "many" and k > 0 and rng.random() < 0.08:
                 o["latshort"] = rng.randrange(k)        # latent list too short: IndexError half-way
             ops.append(o)
             sh["nodes"] |= {x for x, _ in xs}
+        elif r < 0.20:
+            # the removal methods inherited from networkx: remove_edge / remove_edges_from / clear_edges
+            api = rng.choice(["one", "one", "many", "many", "clear_edges"])
+            pool = sorted(sh["edges"]) if sh["edges"] and rng.random() < 0.8 else [(rng.randrange(N), rng.randrange(N))]
+            k = 1 if api == "one" else rng.choice([0, 1, 2, 3])
+            es = [list(rng.choice(pool)) for _ in range(k)]
+            ops.append({"op": "remove_edges", "m": a, "es": es, "api": api})
+            if api == "clear_edges":
+                sh["edges"] = set()
+            else:
+                sh["edges"] -= {tuple(e) for e in es}
         elif r < 0.40:
-            k = rng.choice([1, 1, 1, 1, 2, 3, 4])
+            k = rng.choice([0, 1, 1, 1, 1, 2, 3, 4])
             es = []
             for _ in range(k):
                 u, v = rng.randrange(N), rng.randrange(N)
@@ -201,7 +282,7 @@ def gen_bn_history(rng, length):
                 if not add_edge_sh(sh, u, v):
                     break
         elif r < 0.50:
-            k = rng.choice([1, 1, 1, 2])
+            k = rng.choice([0, 1, 1, 1, 1, 2])
             pool = sorted(sh["nodes"]) if sh["nodes"] and rng.random() < 0.85 else list(range(N))
             xs = [rng.choice(pool) for _ in range(k)]
             ops.append({"op": "remove_nodes", "m": a, "xs": xs, "api": "one" if k == 1 and rng.random() < 0.7 else "many"})
@@ -223,8 +304,8 @@ def gen_bn_history(rng, length):
                                  for col in rand_cols(rng, c["vcard"], ncol, "norm")]
                 rng.shuffle(cs)
             else:
-                cs = [gen_cpd(rng, sh, card, N) for _ in range(rng.choice([1, 1, 2, 3]))]
-            ops.append({"op": "add_cpds", "m": a, "cs": cs})
+                cs = [gen_cpd(rng, sh, card, N) for _ in range(rng.choice([0, 1, 1, 1, 2, 3]))]
+            ops.append({"op": "add_cpds", "m": a, "cs": cs, "buf": rng.random() < 0.3})
             sh["cpds"] |= {c["v"] for c in cs}
         elif r < 0.76:
             pool = sorted(sh["cpds"]) if sh["cpds"] and rng.random() < 0.8 else list(range(N))
@@ -232,13 +313,14 @@ def gen_bn_history(rng, length):
                 # remove_cpds(obj) with CPD objects that are NOT the model's own objects: a copy of the pick-th
                 # CPD of the model (equal by value) or an unrelated fresh CPD (list.remove fall-back)
                 ops.append({"op": "remove_cpd_objs", "m": a,
-                            "cs": [{"pick": rng.randrange(8)} if rng.random() < 0.7 else {"cpd": gen_cpd(rng, sh, card, N)}
+                            "cs": [{"pick": rng.randrange(8), "perturb": rng.choice([0, 0, 1e-10, 1e-3])} if rng.random() < 0.7
+                                   else {"cpd": gen_cpd(rng, sh, card, N)}
                                    for _ in range(rng.choice([1, 1, 2]))]})
             else:
-                ops.append({"op": "remove_cpds", "m": a, "xs": [rng.choice(pool) for _ in range(rng.choice([1, 1, 2]))]})
+                ops.append({"op": "remove_cpds", "m": a, "xs": [rng.choice(pool) for _ in range(rng.choice([0, 1, 1, 1, 2]))]})
         elif r < 0.86:
             pool = sorted(sh["nodes"]) if sh["nodes"] and rng.random() < 0.9 else list(range(N))
-            k = rng.choice([1, 1, 2])
+            k = rng.choice([0, 1, 1, 1, 2, 2])
             xs = [rng.choice(pool) for _ in range(k)]
             inplace = rng.random() < 0.5
             ops.append({"op": "do", "m": a, "xs": xs, "inplace": inplace,
@@ -338,8 +420,12 @@ def cases(tier, seed):
     nb, nd, nj, ng, nu = (420, 120, 120, 120, 60) if tier == "quick" else (4200, 1000, 1000, 800, 400)
     for i in range(nb):
         c = gen_bn_history(rng, rng.randint(5, 40))
-        c["style"] = rng.choice(["str", "int", "mixed", "tuple", "mixed"])
+        if c["N"] >= 9:
+            c["ops"] = [o for o in c["ops"][:9] if o["op"] != "random_cpds"]   # big tables: keep the exact model cheap
+        c["style"] = rng.choice(["str", "int", "mixed", "tuple", "mixed", "substr"])
         c["nameseed"] = rng.randint(0, 10**9)
+        if rng.random() < 0.15 and float32_safe(c):
+            c["backend"] = "torch"
         out.append(c)
     for i in range(nd):
         out.append(gen_dbn_history(rng, rng.randint(3, 25)))
@@ -349,13 +435,28 @@ def cases(tier, seed):
         n = rng.randint(1, 5)
         out.append({"kind": "dag", "eb": [[rng.randrange(n), rng.randrange(n)] for _ in range(rng.randint(0, 7))]})
     for i in range(nu):
-        out.append({"kind": "ucopy", "seed": rng.randint(0, 10**9), "cls": rng.choice(["mn", "cg", "jt"])})
+        out.append({"kind": "ucopy", "seed": rng.randint(0, 10**9), "cls": rng.choice(["mn", "cg", "jt", "dbn", "dbn"])})
+    for i in range(24 if tier == "quick" else 240):
+        out.append({"kind": "snames", "seed": rng.randint(0, 10**9)})
     # rejected multi-argument calls: every target several times in every tier
     per = 12 if tier == "quick" else 80
     for t in sorted(MULTI):
         for i in range(per):
             out.append({"kind": "multi", "target": t, "seed": rng.randint(0, 10**9)})
     return out
+
+
+def float32_safe(case):
+    """every table entry of the history survives the float32 round trip of the torch backend's constructor"""
+    lo, hi = Fraction(1, 2 ** 60), Fraction(2 ** 60)
+    for o in case["ops"]:
+        for c in o.get("cs", []):
+            c = c.get("cpd", c)
+            for col in c.get("cols", []):
+                for n, d in col:
+                    if n and not (lo <= Fraction(n, d) <= hi):
+                        return False
+    return True
 
 
 def shrink(case):
@@ -408,13 +509,16 @@ def bn_names(case):
     style = case["style"]
     n = case["N"]
     if style == "str":
-        pool = ["A", "B", "C", "D", "E", "F", "G", "H"]
+        pool = ["A", "B", "C", "D", "E", "F", "G", "H", "I", "J"]
     elif style == "int":
-        pool = list(range(0, 9))
+        pool = list(range(0, 11))
     elif style == "tuple":
-        pool = [("v", i) for i in range(8)]
+        pool = [("v", i) for i in range(10)]
+    elif style == "substr":
+        # names that are substrings of one another, the empty string, a digit string next to the int
+        pool = ["x1", "x10", "x", "G", "G2", "G20", "1", 1, "", "x100"]
     else:
-        pool = ["x", 0, ("t", 1), "y", 7, "zz", ("u", 2), 3]
+        pool = ["x", 0, ("t", 1), "y", 7, "zz", ("u", 2), 3, ("t", 10), "x0"]
     rng.shuffle(pool)
     return pool[:n]
 
@@ -427,10 +531,14 @@ def wire_cpd(c):
     return [c["v"], c["vcard"], c["ev"], c["ecard"], frs(c["cols"])]
 
 
-def make_cpd(c, names):
+def make_cpd(c, names, bufs=None):
     from pgmpy.factors.discrete import TabularCPD
     cols = frs(c["cols"])
     vals = [[float(col[r]) for col in cols] for r in range(c["vcard"])]
+    if bufs is not None:
+        import numpy as np
+        vals = np.array(vals, dtype=float, order="C")    # the caller's buffer, overwritten after the call
+        bufs.append(vals)
     if c["ev"]:
         return TabularCPD(names[c["v"]], c["vcard"], vals, evidence=[names[p] for p in c["ev"]], evidence_card=c["ecard"])
     return TabularCPD(names[c["v"]], c["vcard"], vals)
@@ -448,8 +556,8 @@ def snap_real(m, idx):
         cpds.append((idx[repr(c.variable)], int(c.cardinality[0]), [idx[repr(v)] for v in c.variables[1:]],
                      [int(k) for k in c.cardinality[1:]],
                      [[float(vals[r][j]) for r in range(vals.shape[0])] for j in range(vals.shape[1])]))
-    nw = {idx[repr(x)]: (m.nodes[x].get("weight") or 0) for x in m.nodes()}
-    ew = {"%d>%d" % (idx[repr(u)], idx[repr(v)]): (m.edges[u, v].get("weight") or 0) for u, v in m.edges()}
+    nw = {idx[repr(x)]: wenc(m.nodes[x].get("weight")) for x in m.nodes()}
+    ew = {"%d>%d" % (idx[repr(u)], idx[repr(v)]): wenc(m.edges[u, v].get("weight")) for u, v in m.edges()}
     return nodes, succ, pred, lat, cpds, nw, ew
 
 
@@ -480,7 +588,7 @@ def cmp_snap(r, m):
         if len(cr[4]) != len(cm[4]):
             return {"what": "cpd-columns", "impl": len(cr[4]), "model": len(cm[4])}
         for j, (colr, colm) in enumerate(zip(cr[4], cm[4])):
-            if len(colr) != len(colm) or not all(common.approx(x, y) for x, y in zip(colr, colm)):
+            if len(colr) != len(colm) or not all(rel_close(x, y) for x, y in zip(colr, colm)):
                 return {"what": "cpd-values", "cpd": cr[:4], "column": j, "impl": colr, "model": [float(y) for y in colm]}
     return None
 
@@ -520,6 +628,13 @@ def exc_code(e):
     raise e
 
 
+def hold(o, obj):
+    """remember an argument container and a deep snapshot of it: the call must leave it as it was"""
+    import copy
+    o.setdefault("_held", []).append((obj, copy.deepcopy(obj)))
+    return obj
+
+
 def apply_bn(o, M, names):
     """run one op on the real objects; returns error code"""
     import numpy as np
@@ -527,11 +642,44 @@ def apply_bn(o, M, names):
     kind = o["op"]
     nm = lambda x: names[x]
     try:
-        if kind == "new":
-            eb = [(nm(u), nm(v)) for u, v in o["eb"]]
-            M.append(BayesianNetwork(eb if (eb or o.get("empty_list")) else None, latents={nm(x) for x in o["lat"]}))
+        if kind in ("new", "new_from"):
+            import networkx as nx
+            if kind == "new_from":
+                eb = M[o["m"]]                      # a live model as the graph to build from
+            else:
+                eb = [(nm(u), nm(v)) for u, v in o["eb"]]
+                form = o.get("ebform", "tuples")
+                if not eb:
+                    eb = None if form != "lists" else []
+                elif form == "lists":
+                    eb = [list(e) for e in eb]
+                elif form == "tuple-of-tuples":
+                    eb = tuple(eb)
+                elif form == "digraph":
+                    g = nx.DiGraph()
+                    g.add_edges_from(eb)          # may be cyclic: the constructor has to reject it
+                    eb = g
+            lf = o.get("latform", "set")
+            lat = [nm(x) for x in o["lat"]]
+            if lf == "omit" and not lat:
+                new = BayesianNetwork(eb)
+            else:
+                arg = set(lat) if lf != "list" else list(lat)
+                hold(o, arg)
+                new = BayesianNetwork(eb, latents=arg)
+            if isinstance(eb, (list, tuple)):
+                hold(o, eb)
+            M.append(new)
             return 0
         m = M[o["m"]]
+        if kind == "remove_edges":
+            if o["api"] == "one":
+                m.remove_edge(nm(o["es"][0][0]), nm(o["es"][0][1]))
+            elif o["api"] == "clear_edges":
+                m.clear_edges()
+            else:
+                m.remove_edges_from(hold(o, [(nm(u), nm(v)) for u, v in o["es"]]))
+            return 0
         if kind == "add_nodes":
             if o["api"] == "one":
                 kw = {"weight": o["ws"][0]} if o.get("ws") else {}
@@ -542,22 +690,29 @@ def apply_bn(o, M, names):
                     lat = flags[:o["latshort"]]
                 else:
                     lat = flags[0] if len(set(flags)) == 1 else flags
-                kw = {"weights": o["ws"]} if "ws" in o else {}
-                m.add_nodes_from([nm(x) for x, _ in o["xs"]], latent=lat, **kw)
+                kw = {"weights": hold(o, list(o["ws"]))} if "ws" in o else {}
+                if isinstance(lat, list):
+                    hold(o, lat)
+                m.add_nodes_from(hold(o, [nm(x) for x, _ in o["xs"]]), latent=lat, **kw)
         elif kind == "add_edges":
             if o["api"] == "one":
                 kw = {"weight": o["ws"][0]} if o.get("ws") else {}
                 m.add_edge(nm(o["es"][0][0]), nm(o["es"][0][1]), **kw)
             else:
-                kw = {"weights": o["ws"]} if "ws" in o else {}
-                m.add_edges_from([(nm(u), nm(v)) for u, v in o["es"]], **kw)
+                kw = {"weights": hold(o, list(o["ws"]))} if "ws" in o else {}
+                m.add_edges_from(hold(o, [(nm(u), nm(v)) for u, v in o["es"]]), **kw)
         elif kind == "remove_nodes":
             if o["api"] == "one":
                 m.remove_node(nm(o["xs"][0]))
             else:
-                m.remove_nodes_from([nm(x) for x in o["xs"]])
+                m.remove_nodes_from(hold(o, [nm(x) for x in o["xs"]]))
         elif kind == "add_cpds":
-            m.add_cpds(*[make_cpd(c, names) for c in o["cs"]])
+            bufs = [] if o.get("buf") else None
+            try:
+                m.add_cpds(*[make_cpd(c, names, bufs) for c in o["cs"]])
+            finally:
+                for b in bufs or []:
+                    b[...] = -7.0                       # a stored CPD must not look at the caller's array any more
         elif kind == "remove_cpds":
             m.remove_cpds(*[nm(x) for x in o["xs"]])
         elif kind == "remove_cpd_objs":
@@ -600,8 +755,36 @@ def wire_bn(o, M, names, idx, last=None):
     import numpy as np
     k = o["op"]
     if k == "new":
+        if o.get("ebform") == "digraph" and o["eb"]:
+            # from a networkx graph: nodes first (order of first appearance), then the edges in G.edges() order
+            nodes, seen = [], set()
+            for e in o["eb"]:
+                for x in e:
+                    if x not in seen:
+                        seen.add(x)
+                        nodes.append(x)
+            view, es = [], []
+            for e in o["eb"]:
+                if e not in es:
+                    es.append(e)
+            for u in nodes:
+                view += [e for e in es if e[0] == u]
+            o["_digraph"] = (nodes, view)
+            return [0, view, o["lat"]]
         return [0, o["eb"], o["lat"]]
     a = o["m"]
+    if k == "new_from":
+        # BayesianNetwork(graph): networkx adds the nodes of the source (in its order, keeping their attributes), then
+        # its edges in G.edges() order through add_edges_from (so through the checked add_edge, weight None)
+        nodes, edges, _, _, _, nwlog, _ = last[a]
+        view = [[u, v] for u in nodes for (x, v) in edges if x == u]
+        nw = [next((w for (y, w) in nwlog if y == x), 0) for x in nodes]
+        nid = len(M)
+        return [[0, [], o["lat"]], [1, nid, nodes, nw if any(nw) else [], [False] * len(nodes)], [2, nid, view, []]]
+    if k == "remove_edges":
+        if o["api"] == "clear_edges":
+            return [10, a, [list(e) for e in last[a][1]], False]
+        return [10, a, o["es"], o["api"] == "one"]
     if k == "add_nodes":
         flags = [bool(f) for _, f in o["xs"]]
         if o["api"] == "many" and "latshort" in o:
@@ -623,8 +806,15 @@ def wire_bn(o, M, names, idx, last=None):
         for c in o["cs"]:
             if "pick" in c and mo is not None and mo[4] and len(mo[4]) == len(M[a].cpds):
                 i = c["pick"] % len(mo[4])
-                objs.append(M[a].cpds[i].copy())       # equal by value, not identical
-                ws.append(mo[4][i][1])                  # the model's exact table of that CPD
+                obj = M[a].cpds[i].copy()               # equal by value, not identical
+                if c.get("perturb"):
+                    # numpy.allclose(atol=1e-8, rtol=1e-5): a relative change of 1e-10 is "equal", 1e-3 is not
+                    obj.values = obj.values * (1.0 + c["perturb"])
+                objs.append(obj)
+                vals = obj.get_values()
+                v_, vc_, ev_, ec_, _ = mo[4][i][1]
+                ws.append([v_, vc_, ev_, ec_, [[Fraction(float(vals[r][j])) for r in range(vals.shape[0])]
+                                               for j in range(vals.shape[1])]])   # the exact rationals of the floats
             else:
                 d = c.get("cpd") or {"v": 0, "vcard": 1, "ev": [], "ecard": [], "cols": [[[1, 1]]]}
                 objs.append(make_cpd(d, names))
@@ -686,8 +876,162 @@ def is_single(o):
     return all(len(o.get(f, [])) <= 1 for f in ("xs", "es", "cs"))
 
 
+def oracle_check_model(ms):
+    """verdict of check_model() on the model's current state (exact rationals): every node has a CPD over exactly
+    its graph parents whose columns sum to 1 (pgmpy tolerates 0.01), and every parent's cardinality agrees"""
+    nodes, succ, pred, lat, cpds, nw, ew = ms
+    first = {}
+    for c in cpds:
+        first.setdefault(c[0], c)
+    for x in nodes:
+        c = first.get(x)
+        if c is None or set(c[2]) != set(pred[x]):
+            return False
+        if any(abs(sum(col) - 1) > Fraction(1, 100) for col in c[4]):
+            return False
+    for x in nodes:
+        c = first[x]
+        for p, k in zip(c[2], c[3]):
+            if first[p][1] != k:
+                return False
+    return True
+
+
+def exact_query(ms, q, ev):
+    """P(q | ev) from the CPD tables of a model state that passed check_model, by enumeration"""
+    import itertools
+    nodes, succ, pred, lat, cpds, nw, ew = ms
+    first = {}
+    for c in cpds:
+        first.setdefault(c[0], c)
+    card = {x: first[x][1] for x in nodes}
+    out = [Fraction(0)] * card[q]
+    for asg in itertools.product(*[range(card[x]) for x in nodes]):
+        a = dict(zip(nodes, asg))
+        if any(a[e] != sv for e, sv in ev.items()):
+            continue
+        pr = Fraction(1)
+        for x in nodes:
+            v, vc, pe, pc, cols = first[x]
+            j = 0
+            for p, k in zip(pe, pc):
+                j = j * k + a[p]
+            pr *= cols[j][a[x]]
+            if pr == 0:
+                break
+        out[a[q]] += pr
+    tot = sum(out)
+    return None if tot == 0 else [x / tot for x in out]
+
+
+def observe(m, ms, names, idx, qrng, budget):
+    """validation and queries interleaved with the edits, answered from the model's CURRENT state; returns a
+    description of the first disagreement or None"""
+    nodes, succ, pred, lat, cpds, nw, ew = ms
+    pos = {}
+    for i, c in enumerate(cpds):
+        pos.setdefault(c[0], i)
+    if m.get_cpds() is not m.cpds and list(map(id, m.get_cpds())) != list(map(id, m.cpds)):
+        return {"what": "get_cpds()"}
+    for x in nodes:
+        got = m.get_cpds(names[x])
+        if (got is None) != (x not in pos) or (got is not None and got is not m.cpds[pos[x]]):
+            return {"what": "get_cpds(node)", "node": x, "impl": repr(got), "expected_index": pos.get(x)}
+        if [idx[repr(p)] for p in m.get_parents(names[x])] != pred[x] or \
+                [idx[repr(p)] for p in m.get_children(names[x])] != succ[x]:
+            return {"what": "get_parents/get_children", "node": x}
+    absent = [i for i in range(len(names)) if i not in nodes]
+    if absent:
+        try:
+            m.get_cpds(names[absent[0]])
+            return {"what": "get_cpds(absent node) accepted", "node": absent[0]}
+        except ValueError:
+            pass
+    if sorted(idx[repr(x)] for x in m.get_leaves()) != sorted(x for x in nodes if not succ[x]) or \
+            sorted(idx[repr(x)] for x in m.get_roots()) != sorted(x for x in nodes if not pred[x]):
+        return {"what": "get_leaves/get_roots"}
+    # get_cardinality(): fresh dict (later CPDs of the same variable win); mutating the result changes nothing
+    exp = {}
+    for c in cpds:
+        exp[c[0]] = c[1]
+    got = m.get_cardinality()
+    if {idx[repr(k)]: int(v) for k, v in got.items()} != exp:
+        return {"what": "get_cardinality()", "impl": {idx[repr(k)]: int(v) for k, v in got.items()}, "model": exp}
+    got["__c15__"] = 99
+    if "__c15__" in m.get_cardinality():
+        return {"what": "get_cardinality() result is shared"}
+    for x in nodes[:2]:
+        ps = m.get_parents(names[x])
+        ps.append("__c15__")
+        if "__c15__" in m.get_parents(names[x]):
+            return {"what": "get_parents() result is shared"}
+    # check_model()
+    exp_ok = oracle_check_model(ms)
+    try:
+        got_ok = m.check_model() is True
+    except ValueError:
+        got_ok = False
+    if got_ok != exp_ok:
+        return {"what": "check_model", "impl": got_ok, "model": exp_ok}
+    # a query through the inference API when the model is valid and small
+    if exp_ok and nodes and budget[0] > 0:
+        first = {}
+        for c in cpds:
+            first.setdefault(c[0], c)
+        size = 1
+        for x in nodes:
+            size *= first[x][1]
+        if size <= 3000:
+            budget[0] -= 1
+            from pgmpy.inference import VariableElimination
+            q = qrng.choice(nodes)
+            rest = [x for x in nodes if x != q]
+            ev = {}
+            if rest and qrng.random() < 0.6:
+                e = qrng.choice(rest)
+                ev[e] = qrng.randrange(first[e][1])
+            want = exact_query(ms, q, ev)
+            if want is not None:
+                res = VariableElimination(m).query([names[q]], evidence={names[e]: sv for e, sv in ev.items()} or None,
+                                                   show_progress=False)
+                vals = [float(v) for v in res.values.flatten()]
+                if len(vals) != len(want) or not all(rel_close(a, b) for a, b in zip(vals, want)):
+                    return {"what": "query", "q": q, "evidence": ev, "impl": vals, "model": [float(x) for x in want]}
+                return {"ok": "query"}
+    return None
+
+
+_TOL = [1e-9]
+
+
+def rel_close(a, b, tol=None):
+    """relative to the exact value b; two values below 1e-290 in magnitude count as equal (float underflow).
+    The torch backend builds every table through float32 (torch.Tensor(values)), hence 1e-5 there."""
+    tol = _TOL[0] if tol is None else tol
+    a, b = float(a), float(b)
+    if a != a or b != b:
+        return False
+    if abs(a) <= 1e-290 and abs(b) <= 1e-290:
+        return True
+    return abs(a - b) <= tol * abs(b)
+
+
 def run_bn(case, drv):
+    from pgmpy import config
+    if case.get("backend") == "torch":
+        config.set_backend("torch")
+        _TOL[0] = 1e-5
+    try:
+        return run_bn_(case, drv)
+    finally:
+        _TOL[0] = 1e-9
+        if case.get("backend") == "torch":
+            config.set_backend("numpy")
+
+
+def run_bn_(case, drv):
     import networkx as nx
+    import numpy as np
     names = bn_names(case)
     idx = {repr(nm): i for i, nm in enumerate(names)}
     M = []
@@ -696,6 +1040,8 @@ def run_bn(case, drv):
     nontrivial = False
     wire = []
     last_state = None
+    qrng = random.Random(case.get("nameseed", 0))
+    budget = [2]
     for step, o in enumerate(ops):
         if o["op"] != "new" and not (0 <= o["m"] < len(M)):
             o = dict(o)
@@ -704,7 +1050,14 @@ def run_bn(case, drv):
             o["m"] = o["m"] % len(M)
         o = dict(o)
         w = wire_bn(o, M, names, idx, last_state)
-        wire.append(w)
+        if o["op"] == "new_from":
+            wire.extend(w)
+        elif "_digraph" in o and drv.call("c15_bn_last", wire + [w])[0] == 0:
+            # accepted: same edges, but networkx inserts the nodes first
+            nodes_, view_ = o["_digraph"]
+            wire.extend([[0, [], o["lat"]], [1, len(M), nodes_, [], [False] * len(nodes_)], [2, len(M), view_, []]])
+        else:
+            wire.append(w)
         before = [snap_real(m, idx) for m in M]
         cons_before = [consistent_cpds(m) for m in M]
         nbefore = len(M)
@@ -717,13 +1070,24 @@ def run_bn(case, drv):
             return bad("impl!=model:error-kind", dict(where, impl=ERR[code], model=ERR.get(mout, mout)))
         if len(mstate) != len(M):
             return bad("impl!=model:live-models", dict(where, impl=len(M), model=len(mstate)))
+        # argument purity: the containers handed to the call are as they were
+        for obj, snap in o.get("_held", []):
+            if obj != snap:
+                return bad("impl!=spec:argument-mutated", dict(where, argument=repr(snap)[:200], now=repr(obj)[:200]))
         after = []
         for i, (m, mo) in enumerate(zip(M, mstate)):
             r = snap_real(m, idx)
             after.append(r)
-            d = cmp_snap(r, snap_model(mo))
+            sm = snap_model(mo)
+            d = cmp_snap(r, sm)
             if d:
                 return bad("impl!=model:" + d["what"], dict(where, model_id=i, diff=d))
+            if i == o.get("m", len(M) - 1) or i == len(M) - 1 or (step + i) % 3 == 0:
+                d = observe(m, sm, names, idx, qrng, budget)
+                if d and "ok" in d:
+                    tags.add("observed:" + d["ok"])
+                elif d:
+                    return bad("impl!=model:observe-" + d["what"].split("(")[0].split("/")[0], dict(where, model_id=i, diff=d))
             if not nx.is_directed_acyclic_graph(m):
                 return bad("impl!=spec:directed-cycle", dict(where, model_id=i, edges=[list(e) for e in mo[1]]))
             if r[1] and any(r[1].values()) or r[4]:
@@ -738,10 +1102,14 @@ def run_bn(case, drv):
                     return bad("impl!=spec:shared-latents", dict(where, models=[i, j]))
                 if any(c is d for c in M[i].cpds for d in M[j].cpds):
                     return bad("impl!=spec:shared-cpd-object", dict(where, models=[i, j]))
+                if any(isinstance(c.values, np.ndarray) and isinstance(d.values, np.ndarray) and np.shares_memory(c.values, d.values)
+                       for c in M[i].cpds for d in M[j].cpds):
+                    return bad("impl!=spec:shared-cpd-array", dict(where, models=[i, j]))
         # frame: an op on model a never changes another live model
         tgt = o.get("m", -1)
+        pure = o["op"] in ("copy", "new_from", "new") or (o["op"] in ("do", "random_cpds") and not o["inplace"])
         for i in range(nbefore):
-            if i != tgt and not real_equal(before[i], after[i]):
+            if (i != tgt or pure) and not real_equal(before[i], after[i]):
                 return bad("impl!=spec:other-model-changed", dict(where, changed=i))
         if code == 0 and len(M) > nbefore and o["op"] in ("copy",):
             if not real_equal(loose(before[tgt]), loose(after[-1])):
@@ -767,6 +1135,8 @@ def run_bn(case, drv):
             tags.add("cpd-preservation-checked:%d" % min(3, len(cons_before[tgt] - gone)))
     key = common.canon_key(["bn", case["N"], [[k, v] for o in ops for k, v in sorted(o.items()) if not k.startswith("_")]])
     tags.add("len=%d0s" % (len(ops) // 10))
+    tags.add("backend=" + case.get("backend", "numpy"))
+    tags.add("names=" + case.get("style", "?"))
     tags.add("models=%d" % len(M))
     return ok(nontrivial=nontrivial, key=key, tags=sorted(tags))
 
@@ -910,7 +1280,74 @@ def run_dag(case, drv):
     return ok(nontrivial=len(eb) > 0, key=common.canon_key(["dag", eb]), tags=["dag-init:" + ERR[code]])
 
 
+def run_dbn_copy(case, drv):
+    """DynamicBayesianNetwork.copy(): same nodes, edges and CPD tables; editing either side (edges, CPD registration,
+    in-place table edits) never shows on the other; no shared CPD object or array"""
+    import numpy as np
+    import networkx as nx
+    rng = random.Random(case["seed"])
+    G = _mk_dbn(rng)
+    for _ in range(rng.randint(0, 3)):
+        G.add_cpds(_dbn_valid_cpd(rng, G))
+    key = common.canon_key(["ucopy", case])
+    tags = ["ucopy:dbn", "dbn cpds=%d" % len(G.cpds)]
+
+    def content(X):
+        c = multi_content(X)
+        # copy() re-registers the CPDs that get_cpds() lists (first CPD per variable, slice by slice): compare as a set
+        seen, tabs = set(), []
+        for t in c["tables"]:
+            if t[1][0] not in seen:
+                seen.add(t[1][0])
+                tabs.append(t)
+        c["tables"] = sorted(tabs, key=repr)
+        return c
+
+    def lookups_ok(X):
+        """get_cpds(node) = the first registered CPD of that node, on the CURRENT list"""
+        for n in list(X.nodes()):
+            want = next((c for c in X.cpds if tuple(c.variable) == (n.node, n.time_slice)), None)
+            if X.get_cpds((n.node, n.time_slice)) is not want:
+                return False
+        return True
+
+    # a session on one object: lookups interleaved with registration and removal
+    if not lookups_ok(G):
+        return bad("impl!=spec:dbn-get-cpds", {"stage": "initial"}, key=key, tags=tags)
+    extra = _dbn_valid_cpd(rng, G)
+    G.add_cpds(extra)
+    if not lookups_ok(G):
+        return bad("impl!=spec:dbn-get-cpds", {"stage": "after add_cpds"}, key=key, tags=tags)
+    G.remove_cpds(G.cpds[0])
+    if not lookups_ok(G):
+        return bad("impl!=spec:dbn-get-cpds", {"stage": "after remove_cpds"}, key=key, tags=tags)
+    c0 = content(G)
+    C = G.copy()
+    if content(C) != c0:
+        return bad("impl!=spec:dbn-copy-differs", {"orig": c0, "copy": content(C)}, key=key, tags=tags)
+    if not nx.is_directed_acyclic_graph(C):
+        return bad("impl!=spec:dbn-copy-cycle", {}, key=key, tags=tags)
+    if any(a is b or np.shares_memory(a.values, b.values) for a in G.cpds for b in C.cpds) or G.cpds is C.cpds:
+        return bad("impl!=spec:dbn-copy-shares-cpd", {}, key=key, tags=tags)
+    C.add_edge(("N", 0), ("G", 0))
+    C.add_cpds(_cpd(("N", 0), 2, rng=rng))
+    if C.cpds:
+        C.cpds[0].values[...] = 0.5
+    if content(G) != c0:
+        return bad("impl!=spec:dbn-copy-original-changed", {"orig_before": c0, "orig_after": content(G)}, key=key, tags=tags)
+    c1 = content(C)
+    G.add_edge(("M", 0), ("M", 1))
+    if G.cpds:
+        G.cpds[0].values[...] = 0.25
+        G.remove_cpds(G.cpds[-1])
+    if content(C) != c1:
+        return bad("impl!=spec:dbn-copy-copy-changed", {}, key=key, tags=tags)
+    return ok(nontrivial=True, key=key, tags=tags)
+
+
 def run_ucopy(case, drv):
+    if case["cls"] == "dbn":
+        return run_dbn_copy(case, drv)
     """copy independence of the undirected models, on the real objects only"""
     import numpy as np
     from pgmpy.models import MarkovNetwork, ClusterGraph, JunctionTree
@@ -1294,8 +1731,116 @@ def run_multi(case, drv):
     return ok(nontrivial=True, key=key, tags=tags)
 
 
+# ------------------------------------------------------------------ explicit state names (real objects only)
+SCHEMES = [[1, 0], [1, 2, 3], [True, False], ["lo", "hi"], ["a", "b", "c"], [0, 1], [2, 1, 0], ["x1", "x10"]]
+
+
+def run_snames(case, drv):
+    """state names that are not positions (reversed / 1-based ints, booleans, strings, equal across variables):
+    copy / remove_node / do keep them attached to the right axes; check_model rejects a child CPD that lists a
+    parent's states in another order or with another set"""
+    from pgmpy.models import BayesianNetwork
+    from pgmpy.factors.discrete import TabularCPD
+    rng = random.Random(case["seed"])
+    sn = {v: list(rng.choice(SCHEMES)) for v in "ABCD"}
+    card = {v: len(sn[v]) for v in sn}
+    pa = {"A": [], "B": [], "C": ["A", "B"], "D": ["C"]}
+    for v in pa:
+        rng.shuffle(pa[v])
+    cols = {}
+
+    def mk(v, names=None):
+        names = names or sn
+        ncol = 1
+        for p in pa[v]:
+            ncol *= card[p]
+        cols[v] = [common.rand_column(rng, card[v], zeros=False) for _ in range(ncol)]
+        vals = [[float(c[r]) for c in cols[v]] for r in range(card[v])]
+        st = {x: list(names[x]) for x in [v] + pa[v]}
+        return TabularCPD(v, card[v], vals, evidence=pa[v] or None, evidence_card=[card[p] for p in pa[v]] or None, state_names=st)
+
+    m = BayesianNetwork([("A", "C"), ("B", "C"), ("C", "D")])
+    m.add_cpds(*[mk(v) for v in rng.sample("ABCD", 4)])
+    tags = ["snames " + "/".join(type(sn[v][0]).__name__ for v in "ABCD")]
+    key = common.canon_key(["snames", case["seed"]])
+
+    def names_ok(model, gone=()):
+        for c in model.cpds:
+            want = {x: sn[x] for x in c.variables}
+            if {k: list(v) for k, v in c.state_names.items()} != want:
+                return {"cpd": str(c.variable), "impl": {str(k): list(map(str, v)) for k, v in c.state_names.items()},
+                        "expected": {str(k): list(map(str, v)) for k, v in want.items()}}
+        return None
+
+    if m.check_model() is not True:
+        return bad("impl!=spec:snames-check-model", {"sn": str(sn)}, key=key, tags=tags)
+    c = m.copy()
+    d = names_ok(c)
+    if d:
+        return bad("impl!=spec:snames-copy", d, key=key, tags=tags)
+    if any(a.state_names is b.state_names for a in m.cpds for b in c.cpds):
+        return bad("impl!=spec:snames-copy-shares-dict", {}, key=key, tags=tags)
+    if c.check_model() is not True:
+        return bad("impl!=spec:snames-copy-check-model", {}, key=key, tags=tags)
+    # a parent's states in another order / another set must be rejected by check_model
+    for how in ("order", "set"):
+        c2 = m.copy()
+        p = pa["D"][0]
+        alt = dict(sn)
+        if how == "order":
+            alt[p] = sn[p][1:] + sn[p][:1]
+        else:
+            alt[p] = ["q%d" % i for i in range(card[p])]
+        c2.add_cpds(mk("D", alt))
+        try:
+            c2.check_model()
+            return bad("impl!=spec:snames-mismatch-accepted", {"how": how, "parent": sn[p], "child_lists": alt[p]}, key=key, tags=tags)
+        except ValueError:
+            pass
+    mk("D")     # restore cols["D"] bookkeeping for the checks below (fresh values are irrelevant: D is not touched)
+    # remove_node(B): C keeps its own and A's states; the table, addressed BY NAME, is the marginal over B
+    old_c = m.get_cpds("C")
+    oldcols = [[float(old_c.get_values()[r][j]) for r in range(card["C"])] for j in range(old_c.get_values().shape[1])]
+    c3 = m.copy()
+    c3.remove_node("B")
+    d = names_ok(c3)
+    if d:
+        return bad("impl!=spec:snames-remove-node", d, key=key, tags=tags)
+    newc = c3.get_cpds("C")
+    ia, ib = pa["C"].index("A"), pa["C"].index("B")
+    for a_i, a_name in enumerate(sn["A"]):
+        tot = [Fraction(0)] * card["C"]
+        for b_i in range(card["B"]):
+            j = (a_i * card["B"] + b_i) if ia < ib else (b_i * card["A"] + a_i)
+            for r in range(card["C"]):
+                tot[r] += Fraction(oldcols[j][r])
+        z = sum(tot)
+        for r, c_name in enumerate(sn["C"]):
+            got = newc.get_value(**{"C": c_name, "A": a_name})
+            if not rel_close(got, tot[r] / z):
+                return bad("impl!=spec:snames-remove-node-values", {"C": str(c_name), "A": str(a_name), "impl": float(got),
+                                                                     "expected": float(tot[r] / z)}, key=key, tags=tags)
+    if c3.check_model() is not True:
+        return bad("impl!=spec:snames-remove-node-check-model", {}, key=key, tags=tags)
+    # do(C): parent-less CPD over C's own states
+    c4 = m.do(["C"])
+    d = names_ok(c4)
+    if d or list(c4.get_cpds("C").variables) != ["C"]:
+        return bad("impl!=spec:snames-do", d or {"variables": list(map(str, c4.get_cpds("C").variables))}, key=key, tags=tags)
+    tot = [sum(Fraction(col[r]) for col in oldcols) for r in range(card["C"])]
+    z = sum(tot)
+    for r, c_name in enumerate(sn["C"]):
+        if not rel_close(c4.get_cpds("C").get_value(C=c_name), tot[r] / z):
+            return bad("impl!=spec:snames-do-values", {"C": str(c_name)}, key=key, tags=tags)
+    if names_ok(m) or m.check_model() is not True:
+        return bad("impl!=spec:snames-original-changed", {}, key=key, tags=tags)
+    return ok(nontrivial=True, key=key, tags=tags)
+
+
 def run_case(case, drv):
     k = case["kind"]
+    if k == "snames":
+        return run_snames(case, drv)
     if k == "multi":
         return run_multi(case, drv)
     if k == "bn":
